@@ -554,12 +554,14 @@ class Interp:
         # ---- the body as a function of the carried variables (and of the pass number when the body reads it)
         sub = Interp(self.job, self.env, self.counter, self.indent + '    ')
         st_name = self.fresh('state')
-        ty = lambda ns: ' × '.join(LEAN_TYPE[self.env[n].kind] for n in ns)
+        # a one-component state is written `T × Unit`: an array is a closure at run time, and a local function `Fld → Fld` would be compiled as a
+        # function of the state AND the element indices, i.e. a whole pass would be re-run for every element that is read
+        ty = lambda ns: ' × '.join([LEAN_TYPE[self.env[n].kind] for n in ns] + (['Unit'] if len(ns) == 1 else []))
         params = []
         for pos, n in enumerate(carried):
             v = self.env[n]
             p = self.fresh(n)
-            proj = st_name if len(carried) == 1 else st_name + ''.join(['.2'] * pos) + ('.1' if pos < len(carried) - 1 else '')
+            proj = st_name + '.1' if len(carried) == 1 else st_name + ''.join(['.2'] * pos) + ('.1' if pos < len(carried) - 1 else '')
             params.append((p, LEAN_TYPE[v.kind], proj))
             sub.env[n] = v.re(p)
         if uses_index:
@@ -579,12 +581,12 @@ class Interp:
         for n in late:
             if n not in sub.env or sub.env[n].kind not in LEAN_TYPE:
                 raise TranslateError('%s: %s is not an array or a number of the model after the loop' % (src, n))
-        out_ty = ' × '.join(LEAN_TYPE[sub.env[n].kind] for n in outs)
+        out_ty = ' × '.join([LEAN_TYPE[sub.env[n].kind] for n in outs] + (['Unit'] if len(outs) == 1 else []))
         in_ty = ty(carried) if carried else 'Unit'
         ind = self.indent + '    '
         body = ['fun (%s : %s)%s =>' % (st_name, in_ty, ' (%s : Nat)' % idx if uses_index else '')]
         body += ['%slet %s : %s := %s' % (ind, p, t, proj) for p, t, proj in params]
-        res = '(' + ', '.join(sub.env[n].term for n in outs) + ')' if len(outs) > 1 else sub.env[outs[0]].term
+        res = '(' + ', '.join([sub.env[n].term for n in outs] + (['()'] if len(outs) == 1 else [])) + ')'
         body += ['%slet %s : %s := %s' % (ind, n, t, e) for n, t, e in prune(sub.lets, [res])]
         body.append(ind + res)
         bname = self.fresh('pass')
@@ -592,11 +594,10 @@ class Interp:
         self.lets.append((bname, fty, '\n'.join(body)))
 
         def proj_of(tup, pos, n):
-            return tup if n == 1 else tup + ''.join(['.2'] * pos) + ('.1' if pos < n - 1 else '')
-        init = '(' + ', '.join(self.env[n].term for n in carried) + ')' if len(carried) != 1 else self.env[carried[0]].term
+            return tup + '.1' if n == 1 else tup + ''.join(['.2'] * pos) + ('.1' if pos < n - 1 else '')
+        init = '(' + ', '.join([self.env[n].term for n in carried] + (['()'] if len(carried) == 1 else [])) + ')'
         step_name = self.fresh('step')
-        carry_of = lambda t: ('(' + ', '.join(proj_of(t, outs.index(n), len(outs)) for n in carried) + ')') if len(carried) != 1 \
-            else proj_of(t, outs.index(carried[0]), len(outs))
+        carry_of = lambda t: '(' + ', '.join([proj_of(t, outs.index(n), len(outs)) for n in carried] + (['()'] if len(carried) == 1 else [])) + ')'
         if not carried:
             raise TranslateError('%s: a loop without loop-carried variables is not modelled' % src)
         if uses_index:
